@@ -332,29 +332,89 @@ pub fn covering_configs() -> Vec<Cfg> {
         .collect()
 }
 
-/// Dust positions in a pool priced below 1 (0.1 quote per base): positions of a few raw base units whose value
-/// rounds to zero quote units, next to one ordinary size that moves the price. Amounts are raw units.
+/// Dust positions: a few raw units, next to one ordinary size that moves the price. Two pools: the standard one
+/// (price 10: positions of 1-3 raw BASE units, whose partial-liquidation slice rounds to zero) and a cheap one (price
+/// 0.1: positions whose value rounds to zero QUOTE units). Liquidation-band ratios with a 25% partial ratio, so dust
+/// opened at 10x can become liquidatable. Amounts are raw units.
 pub fn push_dust(exps: &mut Vec<Exp>, cw20: bool, depth: usize) {
-    let mut c = cfg_with(cw20, false, 0);
-    c.quote_reserve = 100 * D;
-    c.base_reserve = 1000 * D;
-    let mut acts = vec![];
-    for t in T2 {
-        for buy in [true, false] {
-            for (m, l) in [(1u128, D), (3, D), (12, D), (25, 2 * D), (5 * D, 2 * D)] {
-                acts.push(Act::Open { t: t.into(), v: 0, buy, margin: m, lev: l, limit: 0 });
+    // seeds take four steps; the depth given is what is explored after them (one less than from the empty history)
+    for (q, b, big) in [(100 * D, 1000 * D, (5 * D, 2 * D)), (1000 * D, 100 * D, (25 * D, 2 * D))] {
+        let mut c = cfg_liq(cw20, false, 250_000);
+        c.quote_reserve = q;
+        c.base_reserve = b;
+        let mut acts = vec![];
+        for t in T2 {
+            for buy in [true, false] {
+                for (m, l) in [(1u128, D), (3, D), (12, D), (25, 2 * D), (1, 10 * D), (3, 10 * D), (13, 3_076_923), big] {
+                    acts.push(Act::Open { t: t.into(), v: 0, buy, margin: m, lev: l, limit: 0 });
+                }
+            }
+            acts.push(Act::close(t));
+            acts.push(Act::Liq { by: "liq".into(), t: t.into(), v: 0, limit: 0 });
+        }
+        acts.push(Act::blk(15));
+        acts.push(Act::blk(1200));
+        acts.push(px_at_spot());
+        // seeds: a dust position at 10x made slightly under-margined (price moved ~4.9% against it, TWAP caught up,
+        // oracle at spot), in both directions: its partial-liquidation slice is 0 base units (price 10) / a few units
+        // worth less than their fee (price 0.1)
+        let mover = q / 40; // notional moving the price by ~4.9%
+        let mut seeds = vec![vec![]];
+        for long in [true, false] {
+            // (13 at 3.08x: 40 units of notional buy 3 base units worth 30 - the rounding loss eats most of the margin)
+            for (m, l) in [(1u128, 10 * D), (3, 10 * D), (13, 3_076_923)] {
+                seeds.push(vec![
+                    Act::Open { t: "alice".into(), v: 0, buy: long, margin: m, lev: l, limit: 0 },
+                    Act::Open { t: "bob".into(), v: 0, buy: !long, margin: mover, lev: D, limit: 0 },
+                    Act::blk(1200),
+                    px_at_spot(),
+                ]);
             }
         }
-        acts.push(Act::close(t));
-        acts.push(Act::Liq { by: "liq".into(), t: t.into(), v: 0, limit: 0 });
+        let name = if q < b { "dust positions, price 0.1" } else { "dust positions, price 10" };
+        let from_scratch = vec![seeds.remove(0)];
+        for (sd, d) in [(from_scratch, depth), (seeds, depth - 1)] {
+            let mut e = Exp::new(name, c.clone(), acts.clone(), sd, d);
+            e.traders = T2.to_vec();
+            e.raw = true;
+            exps.push(e);
+        }
     }
-    acts.push(Act::blk(15));
-    acts.push(Act::blk(1200));
-    acts.push(px_at_spot());
-    let mut e = Exp::new("dust positions, price 0.1", c, acts, vec![vec![]], depth);
-    e.traders = T2.to_vec();
-    e.raw = true;
-    exps.push(e);
+}
+
+/// Configuration changed mid-history: the owner's legal updates of the engine ratios and of the vAMM's fee and band
+/// settings are actions, interleaved with trades, liquidations and funding on positions opened under the old values.
+/// The oracles read the configuration in force (`World::live_cfg`).
+pub fn push_cfgchange(exps: &mut Vec<Exp>, depth: usize) {
+    let mut al = StdAlpha::basic(&T2);
+    al.sizes = vec![SIZE_M];
+    al.deposit = None;
+    al.liquidators = vec!["liq"];
+    al.rel_prices = vec![(1, 1)];
+    al.prices = vec![];
+    al.blocks = vec![15];
+    let mut alpha = al.acts();
+    let e = |imr: Option<u128>, mmr: Option<u128>, plr: Option<u128>, lf: Option<u128>| Act::EngConfig { by: "owner".into(), imr, mmr, plr, lf };
+    let v = |toll: Option<u128>, spread: Option<u128>, fluct: Option<u128>| Act::VammConfig { by: "owner".into(), v: 0, toll, spread, fluct, twap: None };
+    alpha.extend([
+        e(None, None, Some(0), None),
+        e(None, None, Some(250_000), None),
+        e(None, None, Some(D), None),
+        e(None, None, None, Some(0)),
+        e(None, None, None, Some(25_000)),
+        e(Some(100_000), Some(62_500), None, None),
+        e(Some(50_000), Some(50_000), None, None),
+        v(Some(0), Some(0), None),
+        v(Some(3_000), Some(7_000), None),
+        v(None, None, Some(0)),
+        v(None, None, Some(50_000)),
+    ]);
+    let seeds = vec![vec![], seed_liquidatable(), seed_slightly_under(), seed_funded(), seed_band_liquidatable()];
+    for cw20 in [true, false] {
+        let mut x = Exp::new("configuration changed mid-history", cfg_liq(cw20, false, 250_000), alpha.clone(), seeds.clone(), depth);
+        x.traders = T3.to_vec();
+        exps.push(x);
+    }
 }
 
 /// shallow explorations over the covering array (breadth over configurations)
@@ -468,6 +528,7 @@ pub fn run_c02(tier: Tier) -> i32 {
     if tier == Tier::Thorough {
         push_dust(&mut exps, false, 4);
     }
+    push_cfgchange(&mut exps, tier.pick(3, 4));
     push_dec9(&mut exps, tier.pick(1, 3), false);
     run_exps(&mut run, step_c02, exps, |_| {});
     run.finish()
@@ -516,6 +577,7 @@ pub fn run_c03(tier: Tier) -> i32 {
     if tier == Tier::Thorough {
         push_dust(&mut exps, false, 4);
     }
+    push_cfgchange(&mut exps, tier.pick(3, 4));
     push_dec9(&mut exps, tier.pick(1, 3), false);
     run_exps(&mut run, step_c03, exps, |_| {});
     run.finish()
@@ -565,6 +627,10 @@ fn alpha_c10(w: &mut World, _s: &EngSt) -> Vec<Act> {
     // crafted deposit: vamm string = vamm address + "al", sender "ice"
     for v in 0..w.vamms.len() {
         acts.push(Act::DepRaw { by: "ice".into(), vamm: format!("{}al", w.vamms[v]), amt: 7 * D });
+        // ... and every other engine operation with the same crafted string
+        for op in ["open_buy", "open_sell", "close", "withdraw", "liquidate", "pay_funding"] {
+            acts.push(Act::RawOp { by: "ice".into(), op: op.into(), vamm: format!("{}al", w.vamms[v]), trader: "alice".into(), amt: 7 * D });
+        }
     }
     let k = w.cfg.k();
     acts.iter().map(|a| a.scaled(k)).collect()
@@ -628,6 +694,7 @@ pub fn run_c10(tier: Tier) -> i32 {
     if tier == Tier::Thorough {
         push_dust(&mut exps, false, 4);
     }
+    push_cfgchange(&mut exps, tier.pick(3, 4));
     push_dec9(&mut exps, tier.pick(1, 3), true);
     run_exps(&mut run, step_c10, exps, |_| {});
     run.finish()
@@ -692,6 +759,7 @@ pub fn run_c04(tier: Tier) -> i32 {
     if tier == Tier::Thorough {
         push_dust(&mut exps, false, 4);
     }
+    push_cfgchange(&mut exps, tier.pick(3, 4));
     push_dec9(&mut exps, tier.pick(1, 3), false);
     run_exps(&mut run, step_c04, exps, |_| {});
     run.finish()
@@ -708,7 +776,7 @@ fn step_c05(m: &EngModel, w: &mut World, s: &EngSt, a: &Act, out: &mut StepOut) 
 
 fn alpha_c05(w: &mut World, s: &EngSt) -> Vec<Act> {
     w.restore(&s.snap);
-    let imr = w.cfg.imr;
+    let imr = w.live_cfg(0).imr;
     let (d, k) = (w.d, w.cfg.k());
     let max_lev = d * d / imr; // 1/initial ratio
     let mut acts = vec![];
@@ -791,6 +859,8 @@ pub fn run_c05(tier: Tier) -> i32 {
         }
     }
     push_sweep(&mut exps, tier.pick(2, 3));
+    push_dust(&mut exps, true, tier.pick(3, 4));
+    push_cfgchange(&mut exps, tier.pick(3, 4));
     push_dec9(&mut exps, tier.pick(1, 3), true);
     run_exps(&mut run, step_c05, exps, |_| {});
     run.finish()
@@ -876,7 +946,7 @@ fn alpha_c06(w: &mut World, s: &EngSt) -> Vec<Act> {
     let mut acts: Vec<Act> = acts.iter().map(|a| a.scaled(k)).collect();
     #[allow(non_snake_case)]
     let DI = di();
-    let mmr = w.cfg.mmr as i128;
+    let mmr = w.live_cfg(0).mmr as i128;
     let vo = observe(w, &[]).vamms.remove(0);
     for t in T2 {
         let to = observe_trader(w, 0, t);
@@ -961,6 +1031,8 @@ pub fn run_c06(tier: Tier) -> i32 {
         }
     }
     push_sweep(&mut exps, tier.pick(2, 3));
+    push_dust(&mut exps, true, tier.pick(3, 4));
+    push_cfgchange(&mut exps, tier.pick(3, 4));
     push_dec9(&mut exps, tier.pick(1, 3), true);
     run_exps(&mut run, step_c06, exps, |_| {});
     run.finish()
@@ -1027,6 +1099,8 @@ pub fn run_c07(tier: Tier) -> i32 {
         }
     }
     push_sweep(&mut exps, tier.pick(2, 3));
+    push_dust(&mut exps, true, tier.pick(3, 4));
+    push_cfgchange(&mut exps, tier.pick(3, 4));
     push_dec9(&mut exps, tier.pick(1, 3), false);
     run_exps(&mut run, step_c07, exps, |_| {});
     run.finish()
@@ -1160,6 +1234,8 @@ pub fn run_c08(tier: Tier) -> i32 {
         exps.push(Exp::new("fault sweep poor fund", c, alpha.clone(), vec![seed_funded(), seed_funding_exceeds_margin(), seed_liquidatable()], tier.pick(2, 3)));
     }
     push_sweep(&mut exps, tier.pick(1, 2));
+    push_dust(&mut exps, true, tier.pick(3, 4));
+    push_cfgchange(&mut exps, tier.pick(3, 4));
     push_dec9(&mut exps, tier.pick(1, 3), false);
     run_exps(&mut run, step_c08, exps, |_| {});
     run.finish()
@@ -1199,6 +1275,8 @@ pub fn run_c11(tier: Tier) -> i32 {
         }
     }
     push_sweep(&mut exps, tier.pick(2, 3));
+    push_dust(&mut exps, true, tier.pick(3, 4));
+    push_cfgchange(&mut exps, tier.pick(3, 4));
     push_dec9(&mut exps, tier.pick(1, 3), false);
     run_exps(&mut run, step_c11, exps, |_| {});
     run.finish()
@@ -1246,6 +1324,7 @@ pub fn run_c12(tier: Tier) -> i32 {
     if tier == Tier::Thorough {
         push_dust(&mut exps, false, 4);
     }
+    push_cfgchange(&mut exps, tier.pick(3, 4));
     push_dec9(&mut exps, tier.pick(1, 3), false);
     run_exps(&mut run, step_c12, exps, |_| {});
     run.finish()
@@ -1404,6 +1483,8 @@ pub fn run_c16(tier: Tier) -> i32 {
     if tier == Tier::Thorough {
         push_sweep(&mut exps, 3);
     }
+    push_dust(&mut exps, true, tier.pick(3, 4));
+    push_cfgchange(&mut exps, tier.pick(3, 4));
     push_dec9(&mut exps, tier.pick(1, 3), false);
     run_exps(&mut run, step_c16, exps, |_| {});
     run.finish()
@@ -1439,7 +1520,7 @@ fn alpha_c15(w: &mut World, s: &EngSt) -> Vec<Act> {
     w.restore(&s.snap);
     let q = w.vstate(0).quote_asset_reserve.u128();
     // the move factors are computed in parts per million whatever the decimals
-    let l = w.cfg.fluct / w.cfg.k();
+    let l = w.live_cfg(0).fluct / w.cfg.k();
     let d = w.d;
     let mut acts = vec![];
     // trade sizes on either side of the band edge, plus a small one for drift
@@ -1468,7 +1549,7 @@ fn alpha_c15(w: &mut World, s: &EngSt) -> Vec<Act> {
 fn step_c15(m: &EngModel, w: &mut World, s: &EngSt, a: &Act, out: &mut StepOut) -> Option<EngSt> {
     let d1 = du();
     let so = m.observe_step(w, s, a, out);
-    let cfg = &w.cfg;
+    let cfg = &w.live_cfg(0);
     let mut mon = s.mon.clone();
     if mon["p"].is_null() {
         mon = json!({"p": so.pre.vamms[0].spot as u64});
@@ -1652,7 +1733,7 @@ fn step_c17_eng(m: &EngModel, w: &mut World, s: &EngSt, a: &Act, out: &mut StepO
             so.outcome.ok && so.swaps.len() == 1 && so.post_t(*v, t).pos.as_ref().map(|p| !p.size.is_zero()).unwrap_or(false)
         }
         Act::Close { t, v, .. } => so.outcome.ok && so.post_t(*v, t).pos.is_none() && so.swaps.len() == 1,
-        Act::Liq { t, v, .. } => so.outcome.ok && w.cfg.plr == 0 && so.post_t(*v, t).pos.is_none() && so.swaps.len() == 1,
+        Act::Liq { t, v, .. } => so.outcome.ok && w.live_cfg(*v).plr == 0 && so.post_t(*v, t).pos.is_none() && so.swaps.len() == 1,
         _ => false,
     };
     if eligible {
